@@ -99,6 +99,7 @@ var (
 )
 
 var (
+	inSweep      bool
 	deferHarness bool
 	harnessMu    sync.Mutex
 	harnessErrs  []string
@@ -325,6 +326,14 @@ func runReplay(path string, shrink bool, budget int) (res *replayFile, crashed b
 		}
 	}
 	stderr = eb.String()
+	if exit == 3 && inSweep {
+		// confirmation of a finding of the sweep: kept until the end like the harness
+		// errors of the sweep itself; the finding counts as not reproduced
+		harnessMu.Lock()
+		harnessErrs = append(harnessErrs, "replay hit a harness error\n"+stderr)
+		harnessMu.Unlock()
+		return &replayFile{}, false, exit, stderr
+	}
 	if exit == 3 {
 		fmt.Fprint(os.Stderr, stderr)
 		die("replay hit a harness error")
@@ -692,6 +701,7 @@ func main() {
 	wg.Wait()
 
 	deferHarness = false
+	inSweep = true
 	// ---- violations: confirm in a fresh process, minimise, report ---------------------
 	var keys []string
 	for k := range firstViol {
@@ -866,13 +876,14 @@ func main() {
 					mpath := rpath
 					writeJSON(mpath, min)
 					chk, crashed2, _, _ := runReplay(mpath, false, 0)
-					if crashed2 || chk.Class != v.Class || chk.Key != v.Key {
-						die("minimised replay of %s did not reproduce in a fresh process", ck)
+					if crashed2 || chk == nil || chk.Class != v.Class || chk.Key != v.Key {
+						// keep the confirmed, unminimised replay
+						writeJSON(rpath, res)
+					} else {
+						chk.Note = min.Note
+						writeJSON(mpath, chk)
+						rf = *chk
 					}
-					writeJSON(mpath, chk)
-					chk.Note = min.Note
-					writeJSON(mpath, chk)
-					rf = *chk
 				} else {
 					writeJSON(rpath, res)
 				}
